@@ -51,7 +51,7 @@ def _query(text, note_extra=""):
 ENGINES = [
     {"name": "walring", "path": "lib/eng_walring.py", "serves_properties": ["C05"],
      "kind_free_text": "WalRing/WalAbs TLA+ models; transition tour of the TLC state graph replayed on the real EmbeddedWal; random real runs validated by TLC"},
-    {"name": "core", "path": "lib/eng_core.py", "serves_properties": ["C01", "C06", "C07", "C08", "C14", "C15", "C18", "C19", "C21", "C24", "C25", "C42"],
+    {"name": "core", "path": "lib/eng_core.py", "serves_properties": ["C01", "C06", "C07", "C08", "C14", "C15", "C18", "C19", "C21", "C24", "C25", "C26", "C27", "C42"],
      "kind_free_text": "Mv2Core TLA+ specification; harness `mvh core-run` executes abstract histories on the real Memvid and logs the projected abstract state; Trace_Mv2Core validates every call; MC_Mv2Core is model-checked and used as scenario generator"},
 ]
 ENGINES.append({"name": "lock", "path": "lib/eng_lock.py", "serves_properties": ["C17"],
@@ -81,6 +81,8 @@ CLAIMED = {
     "C14": _core("The embedding id of every frame as served by the vector index, and - for every embedding ever used - the exact set of frames vector search returns at distance 0, are compared with the specification (active frames given that embedding directly, via chunk embeddings, or carried over by an update) after commit, reopen, replay, vacuum and doctor (also with rebuild_vec_index).", "Default features: the brute-force index; the HNSW representation switch (feature hnsw_bench, >= 1000 vectors) is not built in this revision."),
     "C18": _core("Histories open read-only handles on files with and without pending log records and issue reads (timeline, frame_by_uri, vector probes, verify, stats); after every call the file's bytes (digest), length and mtime must equal those at open time, and the frame table shown must be the last committed one (the specification's OpenRO takes a snapshot of the committed table, never the pending window).", "Writes that restore identical bytes within the same mtime granularity would escape the digest/mtime comparison; the disk engine's recorder closes that gap when built."),
     "C21": _core("Doctor runs (all option combinations, dry runs, on files with pending log records left by a lost handle, after vacuum, twice in a row) are specification actions: the frame table, payload ids, descriptive fields and embeddings after doctor, the reported status (a second immediate run must be Clean) and the verification result (Passed after a healing run; verify() afterwards) are compared.", "Crash-interrupted and structurally damaged inputs belong to the disk engine and are not part of this check in this revision."),
+    "C26": _core("Puts with triplet extraction and instant indexing are issued after deletes and commits have made WAL sequence numbers and frame ids drift apart; the card listing (source frame id, source URI, whether the frame text contains the value) and the enrichment queue (read through the verification hook) are compared with the specification's frame table: every extracted card and queue entry must name the frame that carries the document's URI.", "The extractor's rules are not modelled: only provenance and the value-in-text clause are judged."),
+    "C27": _core("get_current / get_at_time are transcribed (CardsTrack.tla) and the C27 contract is model-checked for every card sequence of up to 3-4 cards; random explicit card sets (retractions, ties, event vs document dates) are put on the real memory and every query answer must be exactly the transcription's card, never a retraction or a card after t; the explicit card set listed after commit, close, reopen (rw / ro) and after a lost handle must be the persisted one."),
     "C42": _core("vacuum (directly and through doctor) is a specification action: ids, status, payload ids, descriptive fields, embeddings, timeline results and next_frame_id after vacuum, after further puts and after reopen must equal the specification's; verify() must pass once the handle is closed.", "Search results around vacuum are the query engine's subject."),
     "C15": _core("Every timeline() call issued in the histories (since/until/reverse/limit) must return exactly the sequence the specification computes from the visible frame table (active document frames by (timestamp, id)).", "Frame roles other than document/chunk are exercised by the query engine, not here."),
     "C19": _core("The directory listing is logged after every call (successful or failing) of every history and must be exactly the one .mv2 file."),
